@@ -17,6 +17,7 @@ class FnReport:
         self.gen_s = 0.0
         self.paths = 0
         self.covers = []
+        self.vacuous = []
 
     @property
     def name(self):
@@ -39,6 +40,7 @@ def generate(key, contract, registry, root=None):
         rep.assumed = sorted(set(ex.assumed))
         rep.paths = ex.path_count
         rep.covers = ex.covers
+        rep.vacuous = list(ex.vacuous)
     except Unsupported as e:
         rep.unsupported = str(e)
         ex = getattr(rep, 'ex', None)
